@@ -8,9 +8,9 @@
    venv s = false: every handled event is one the connection layers deliver (first event is the request headers;
    response-side events only after the request went upstream; nothing from the client after its protocol error;
    no empty data events).  The system model checks this flag on every correspondence case.
-   vgap s = false: no response-side event was handled after the flow had been aborted towards the server.  That
-   situation is the finding both-outcomes-queued-response: C03_not_both_refuted shows a run inside the environment
-   in which both hooks fire, C03_not_both_partial is the statement under the exact complement. *)
+   The model describes the code with the two repairs of findings both-outcomes and crash-AssertionError@_handle_event
+   (check_killed after the request hook of a streamed request, abort marks server_state errored; Http1Client waits
+   after an early complete response).  gap_run is the schedule on which the unrepaired code fired both hooks. *)
 From Coq Require Import List Bool NArith.
 From MV Require Import Base.Bytes Model.HttpStream Model.HttpSys Proofs.HttpStreamAbs Proofs.HttpStreamSound
   Proofs.HttpStreamInv Proofs.HttpStreamHooks Proofs.HookSeq Proofs.HttpStreamMain.
@@ -28,25 +28,25 @@ Theorem C03_request_before_responseheaders : forall o s, sreach o s -> venv s = 
 Proof. exact T_request_first. Qed.
 Print Assumptions C03_request_before_responseheaders.
 
-(* never both response and error: false of the code ... *)
-Theorem C03_not_both_refuted :
-  let s := run_stream gap_opts gap_run in
-  venv s = false /\ mem HkResponse (hooks s) && mem HkError (hooks s) = true /\ vgap s = true.
-Proof. exact T_both_refuted. Qed.
-Print Assumptions C03_not_both_refuted.
-
-(* ... and true whenever no response-side event is handled after the abort (error also fires at most once) *)
-Theorem C03_not_both_partial : forall o s, sreach o s -> venv s = false -> vgap s = false ->
+(* never both response and error; error at most once *)
+Theorem C03_not_both : forall o s, sreach o s -> venv s = false ->
   mem HkResponse (hooks s) && mem HkError (hooks s) = false
   /\ (forall pre post, hooks s = pre ++ HkError :: post -> mem HkError pre = false).
 Proof. exact T_not_both. Qed.
-Print Assumptions C03_not_both_partial.
+Print Assumptions C03_not_both.
+
+(* the schedule that broke the unrepaired code now ends with the error outcome only *)
+Theorem C03_former_gap_closed :
+  let s := run_stream gap_opts gap_run in
+  venv s = false /\ hooks s = [HkReqHeaders; HkRequest; HkError] /\ live s = false.
+Proof. exact T_gap_closed. Qed.
+Print Assumptions C03_former_gap_closed.
 
 (* exactly one outcome and not live, for an idle stream that fired requestheaders and whose two sides are finished:
    the client side delivered its end of message / protocol error (or the stream is errored), and if the request
    went upstream the server side delivered its end / error (or the flow was aborted towards the server) *)
 Theorem C03_one_outcome : forall o s, sreach o s ->
-  pc s = None -> tunnel s = false -> crashed s = false -> venv s = false -> vgap s = false ->
+  pc s = None -> tunnel s = false -> crashed s = false -> venv s = false ->
   mem HkReqHeaders (hooks s) = true -> closed_s s = true ->
   xorb (mem HkResponse (hooks s)) (mem HkError (hooks s)) = true /\ live s = false.
 Proof. exact T_outcome. Qed.
@@ -65,7 +65,7 @@ Definition nv_run : list sstep :=
    SIn (IEvent (ERespHeaders nv_resp false)); SIn IHookDone; SIn (IEvent (ERespData [x6f; x6b])); SIn (IEvent ERespEOM); SIn IHookDone].
 Theorem C03_nonvacuous :
   let s := run_stream gap_opts nv_run in
-  sreach gap_opts s /\ pc s = None /\ tunnel s = false /\ crashed s = false /\ venv s = false /\ vgap s = false
+  sreach gap_opts s /\ pc s = None /\ tunnel s = false /\ crashed s = false /\ venv s = false
   /\ closed_s s = true /\ hooks s = [HkReqHeaders; HkRequest; HkRespHeaders; HkResponse] /\ live s = false.
 Proof. split; [apply run_stream_reach | vm_compute; repeat split]. Qed.
 Print Assumptions C03_nonvacuous.
